@@ -9,7 +9,9 @@ against `spec_classes/spec_class.py` under explicit thread schedules.
 Quantification: any class body `b` (any number of `Attr(...)` / `dataclasses.field(...)`
 / plain declarations, any list of method names, user-defined names, `__new__`
 defined or inherited), any assignment of first-use programs to threads
-(`trig : Nat → Trigger`, any number of threads), any schedule (`Reachable`: any
+(`trig : Nat → Trigger`, any number of threads; instantiation directly, through a plain
+subclass, or through a subclass with its own `__new__` that does or does not hand the
+arguments on), any schedule (`Reachable`: any
 interleaving of enabled steps).
 -/
 set_option linter.unusedSectionVars false
@@ -53,7 +55,7 @@ theorem bootstrap_once {b : Body} {trig : Nat → Trigger} {c : Config} (h : Rea
 /-- Observers that instantiate (directly or through a subclass) never see anything
 but the completely bootstrapped class: the wrapper re-synchronises on the lock. -/
 theorem no_partial_view_partial {b : Body} {trig : Nat → Trigger} {c : Config} (h : Reachable b trig c)
-    (i : Nat) (o : Obs) (hti : trig i = .inst) (ho : (c.threads i).obs = some o) : o = eagerObs b :=
+    (i : Nat) (o : Obs) (hti : (trig i).isInst = true) (ho : (c.threads i).obs = some o) : o = eagerObs b :=
   (inv_reachable h).obsInst i o hti ho
 
 /-- what the full statement of "no thread observes a partially initialised class" would be:
@@ -74,8 +76,8 @@ theorem final_eq_eager {b : Body} {trig : Nat → Trigger} {c : Config} (h : Rea
     (hall : ∀ i, (c.threads i).pc = .done ∨ (c.threads i).pc = .start)
     (hsome : ∃ i, (c.threads i).pc = .done) :
     c.cls.core = eagerCore b
-      ∧ (∀ i, trig i = .inst → (c.threads i).pc = .done → (c.threads i).obs = some (eagerObs b))
-      ∧ ((∃ i, trig i = .inst ∧ (c.threads i).pc = .done) → c.cls.new = finalNew b)
+      ∧ (∀ i, (trig i).isInst = true → (c.threads i).pc = .done → (c.threads i).obs = some (eagerObs b))
+      ∧ ((∃ i, (trig i).isInst = true ∧ (c.threads i).pc = .done) → c.cls.new = finalNew b)
       ∧ c.lock = none := by
   have hi := inv_reachable h
   obtain ⟨j, hj⟩ := hsome
@@ -92,20 +94,51 @@ theorem final_eq_eager {b : Body} {trig : Nat → Trigger} {c : Config} (h : Rea
     | none => rw [ho] at this; cases this
     | some o => rw [hi.obsInst i o hti ho]
   · rintro ⟨i, hti, hdi⟩
-    exact hi.swapped i (Or.inr ⟨hti, Or.inr hdi⟩)
+    exact hi.swapped i (Or.inr (Or.inr ⟨hti, Or.inr hdi⟩))
   · cases hl : c.lock with
     | none => rfl
     | some t =>
       have := (hi.lockPc t).2 hl
       rcases hall t with h1 | h1 <;> rw [h1] at this <;> cases this
 
+/-! ## which `__new__` bodies run -/
+
+theorem logInv_reachable {b : Body} {trig : Nat → Trigger} {c : Config} (h : Reachable b trig c) :
+    LogInv b trig c := by
+  induction h with
+  | init => exact logInv_init b trig
+  | step t hr hs ih => exact logInv_step (inv_reachable hr) ih t hs
+
+/-- Every finished program has run exactly the `__new__` bodies the eagerly bootstrapped class
+runs for it, in the same order, each exactly once and with the same arguments: the subclass'
+own `__new__` (when the class is used through one) once, then the class' own / its parent's /
+`object.__new__` once — whichever thread bootstrapped, whatever the interleaving, and also for
+the construction that removed the wrapper. (Programs that only read metadata run none.) -/
+theorem new_chain_eq_eager {b : Body} {trig : Nat → Trigger} {c : Config} (h : Reachable b trig c)
+    (i : Nat) (hd : (c.threads i).pc = .done) : c.news i = eagerNews b (trig i) := by
+  rw [(logInv_reachable h).news i, hd]
+  cases trig i <;> simp [expNews, eagerNews, past]
+
+/-- …and at every moment of every run what has run so far is a prefix of that: no `__new__`
+body ever runs twice or out of order, not even temporarily. -/
+theorem new_chain_prefix {b : Body} {trig : Nat → Trigger} {c : Config} (h : Reachable b trig c)
+    (i : Nat) : c.news i <+: eagerNews b (trig i) := by
+  rw [(logInv_reachable h).news i]
+  cases trig i <;> simp [expNews, eagerNews]
+  · split <;> simp
+  · split
+    · simp
+    · split <;> simp
+
 /-- A single thread, whichever trigger it uses, always finishes (within
-`|bootActs| + 12` steps) and leaves exactly the eager class behind; if it
-instantiated, its instance was built from the eager class and the wrapper is gone. -/
+`|bootActs| + 14` steps) and leaves exactly the eager class behind; if it
+instantiated, its instance was built from the eager class, the wrapper is gone, and
+the `__new__` bodies that ran are those of the eager class. -/
 theorem lazy_seq_eq_eager (b : Body) (trig : Nat → Trigger) (t : Nat) :
-    let c := runSched b trig (Config.init b) (List.replicate ((bootActs b).length + 12) t)
+    let c := runSched b trig (Config.init b) (List.replicate ((bootActs b).length + 14) t)
     (c.threads t).pc = .done ∧ c.cls.core = eagerCore b ∧ c.boots = 1 ∧ c.lock = none
-      ∧ (trig t = .inst → (c.threads t).obs = some (eagerObs b) ∧ c.cls.new = finalNew b) := by
+      ∧ c.news t = eagerNews b (trig t)
+      ∧ ((trig t).isInst = true → (c.threads t).obs = some (eagerObs b) ∧ c.cls.new = finalNew b) := by
   intro c
   have hdone : (c.threads t).pc = .done :=
     run_alone t _ (Config.init b) (SpecVerif.C19.inv_init b trig) (fun _ _ => rfl) (by simp [Config.init, TState.init, rank])
@@ -137,7 +170,7 @@ theorem lazy_seq_eq_eager (b : Body) (trig : Nat → Trigger) (t : Nat) :
       · subst hit; exact Or.inl hdone
       · exact Or.inr (hothers i hit))
     ⟨t, hdone⟩
-  refine ⟨hdone, hfin.1, hi.late t (by rw [hdone]; rfl), hfin.2.2.2, fun hti => ⟨hfin.2.1 t hti hdone, hfin.2.2.1 ⟨t, hti, hdone⟩⟩⟩
+  refine ⟨hdone, hfin.1, hi.late t (by rw [hdone]; rfl), hfin.2.2.2, new_chain_eq_eager hreach t hdone, fun hti => ⟨hfin.2.1 t hti hdone, hfin.2.2.1 ⟨t, hti, hdone⟩⟩⟩
 
 /-! ## witnesses -/
 
@@ -178,7 +211,59 @@ theorem legacy_race :
       ∧ (lrun b0 (LConfig.init b0 2) sched).threads.all (·.pc == .done) = true :=
   ⟨[0,0,0] ++ List.replicate 12 1 ++ List.replicate 12 0, by decide⟩
 
+/-- a class with its own `__new__`, used through a subclass whose `__new__` calls
+`super().__new__(cls)` without the arguments -/
+def b1 : Body := { b0 with origNew := true }
+def trig1 : Nat → Trigger := fun i => if i = 0 then .instSub false else .inst
+
+/-- Why the wrapper must continue with `spec_cls.__new__` (the slot of the DECORATED class):
+if its last statement looked `__new__` up on the class being instantiated, the first
+construction through a subclass with its own `__new__` would run that `__new__` a second
+time (`Wrong.step` = `step` with that one statement changed; thread 0 alone). -/
+theorem cls_dispatch_runs_sub_twice :
+    let c := Wrong.run b1 trig1 (Config.init b1) (List.replicate 30 0)
+    (c.threads 0).pc = .done ∧ c.news 0 = [⟨.sub, true⟩, ⟨.sub, false⟩, ⟨.orig, false⟩]
+      ∧ c.news 0 ≠ eagerNews b1 (trig1 0) := by decide
+
+/-! ## the eager class can be stricter than the lazy one (KF-C19-lenient-synthesized-new) -/
+
+/-- full statement: no program that the lazy class completes (all do: `lazy_seq_eq_eager`) makes
+the eager class raise -/
+def SameOutcome (b : Body) : Prop := ∀ tr : Trigger, eagerRaises b tr = false
+
+/-- it holds for every class with a `__new__` of its own or of a parent… -/
+theorem same_outcome_partial (b : Body) (h : b.origNew = true ∨ b.parentNew = true) : SameOutcome b := by
+  intro tr
+  cases tr with
+  | instSub f =>
+    cases f
+    · rfl
+    · rcases h with h | h
+      · simp [eagerRaises, finalFn, h]
+      · simp only [eagerRaises, finalFn, h]; split <;> simp
+  | _ => rfl
+
+/-- …and fails otherwise: on `b0` (no `__new__` anywhere) a subclass whose `__new__` hands the
+arguments on constructs an instance through the lazy class (`[sub:1, synthesized:1]`, wrapper
+replaced by the synthesized forwarder) while the eager class raises `TypeError` from `object.__new__`. -/
+theorem lenient_synthesized_new :
+    ¬ SameOutcome b0 ∧
+    (let c := runSched b0 (fun _ => .instSub true) (Config.init b0) (List.replicate 30 0)
+     (c.threads 0).pc = .done ∧ c.news 0 = [⟨.sub, true⟩, ⟨.synthesized, true⟩] ∧ c.cls.new = .synthesized) := by
+  refine ⟨fun h => ?_, by decide⟩
+  have := h (.instSub true)
+  revert this
+  decide
+
 /-! ## non-vacuity -/
+
+/-- first use through the subclass with its own `__new__`, a second thread instantiating the
+class directly in between: the subclass' `__new__` ran once, the class' own once per construction,
+without the arguments where the subclass did not hand them on -/
+example :
+    let c := runSched b1 trig1 (Config.init b1) ([0,0,0,0,0,1,1,1] ++ List.replicate 25 0 ++ List.replicate 12 1)
+    (c.threads 0).pc = .done ∧ (c.threads 1).pc = .done ∧ c.boots = 1
+      ∧ c.news 0 = [⟨.sub, true⟩, ⟨.orig, false⟩] ∧ c.news 1 = [⟨.orig, true⟩] := by decide
 
 /-- two threads, an interleaving that makes the second one wait for the lock: both done,
 one bootstrap, eager class, eager observation for the instantiating thread -/
